@@ -184,6 +184,7 @@ pub fn run(a: &Args) {
         if handed != sent || replies != sent || others != 0 { st.fail(format!("[C19 websocket] read() dropped by a {us} us timeout again and again: {sent} keep-alives sent (among packets that are not keep-alives), {handed} handed to the caller, the peer received {replies} reply messages and {others} other messages"), format!("wskac {} {n} {us}", mode_tag(compressed))); }
         st.notes.push(format!("websocket keep-alive burst with dropped reads ({} mode, {us} us): {sent} sent, {handed} handed over, {replies} replies seen by the peer", mode_tag(compressed)));
       } }
+    crate::netprops::abandoned_write_cases("C19", &cx.rt, &mut st);
     // ... and against a lock-step WebSocket peer (nothing more is sent until every reply has arrived) with read() dropped by a 400 us timeout
     { let iort = tokio::runtime::Builder::new_multi_thread().worker_threads(2).enable_all().build().unwrap();
       for compressed in [true, false] { let rounds = if a.thorough() { 1500 } else { 300 };
